@@ -25,13 +25,26 @@ static int cidx(struct dlist_head *p) {
 static int c_less(CItem *a, CItem *b) { return a->key < b->key; }
 
 // ---------------- C++ flavour ----------------
+#ifdef HUGE_ITEMS
+// items whose link fields lie more than 4 GiB behind the start of the object (a frame buffer with a trailing header): the member offsets do
+// not fit 32 bits.  The objects live in lazily committed address space and are never value-initialised (that would fill the padding).
+struct XItem { int id; char pad[0x100000000ULL + 24]; igris::dlist_node lnk; char pad2[0x80000000ULL + 8]; igris::dlist_node lnk2; };
+#define NEW_XITEM(p) new (p) XItem
+#else
 struct XItem { int id; igris::dlist_node lnk; igris::dlist_node lnk2; };   // lnk2: membership in a second list (all live items, by id) at the same time
+#define NEW_XITEM(p) new (p) XItem()
+#endif
 typedef igris::dlist<XItem, &XItem::lnk> XList;
 typedef igris::dlist<XItem, &XItem::lnk2> XList2;
 alignas(16) static unsigned char x_all_mem[sizeof(XList2)]; static bool x_all_live = false;
 static XList2 &xall() { return *reinterpret_cast<XList2 *>(x_all_mem); }
 alignas(16) static unsigned char x_heads_mem[MAXC][sizeof(XList)];
+#ifdef HUGE_ITEMS
+#include <sys/mman.h>
+static unsigned char (*x_items_mem)[sizeof(XItem)] = nullptr;
+#else
 alignas(16) static unsigned char x_items_mem[MAXC][sizeof(XItem)];
+#endif
 static XList &xl(int h) { return *reinterpret_cast<XList *>(x_heads_mem[h]); }
 static XItem &xi(int c) { return *reinterpret_cast<XItem *>(x_items_mem[c - NH]); }
 static igris::dlist_node *xnode(int c) { return c < NH ? xl(c).end().current : &xi(c).lnk; }
@@ -159,12 +172,16 @@ static void op_x(const std::vector<std::string> &t) {
     else if (op == "Splice") xl(a).unlink_and_move_all_nodes_from_other(std::move(xl(b)));
     else if (op == "DestroyNode") { xi(a).~XItem(); alive[a] = false; }
     else if (op == "DestroyList") { xl(a).~XList(); alive[a] = false; }
-    else if (op == "Create") { if (a < NH) new (x_heads_mem[a]) XList(); else { new (x_items_mem[a - NH]) XItem(); xi(a).id = a; xall_insert(a); } alive[a] = true; }
+    else if (op == "Create") { if (a < NH) new (x_heads_mem[a]) XList(); else { NEW_XITEM(x_items_mem[a - NH]); xi(a).id = a; xall_insert(a); } alive[a] = true; }
     else { fprintf(stderr, "bad cxx op %s\n", op.c_str()); exit(3); }
     Ev e(op.c_str()); e.i("a", a).i("b", b); observe(e); e.end();
 }
 
 int main(int argc, char **argv) {
+#ifdef HUGE_ITEMS
+    x_items_mem = (unsigned char (*)[sizeof(XItem)])mmap(nullptr, (size_t)HUGE_ITEMS * sizeof(XItem), PROT_READ | PROT_WRITE, MAP_PRIVATE | MAP_ANONYMOUS | MAP_NORESERVE, -1, 0);
+    if ((void *)x_items_mem == MAP_FAILED) { perror("mmap"); return 3; }
+#endif
     return run(argc, argv, [&](const std::vector<std::string> &t) {
         if (t[0] == "R") {
             if (flavor == "cxx") {   // tear down the previous execution
@@ -177,7 +194,7 @@ int main(int argc, char **argv) {
             for (int c = 0; c < NC; ++c) {
                 alive[c] = true;
                 if (flavor == "c") { dlist_init(cptr(c)); if (c >= NH) { c_items[c - NH].key = c; dlist_init(&c_items[c - NH].lnk2); dlist_add_tail(&c_items[c - NH].lnk2, &c_all); } }
-                else if (c < NH) new (x_heads_mem[c]) XList(); else { new (x_items_mem[c - NH]) XItem(); xi(c).id = c; xall_insert(c); }
+                else if (c < NH) new (x_heads_mem[c]) XList(); else { NEW_XITEM(x_items_mem[c - NH]); xi(c).id = c; xall_insert(c); }
             }
             Ev e("Reset"); e.str("flavor", flavor.c_str()).i("nh", NH).i("nn", NN); observe(e); e.end(); return;
         }
